@@ -99,6 +99,20 @@ def multiway_conflict(rng):
     return "grammar g;\n%sstart = e;\ne = %s;\nNUM = /[0-9]+/;\n" % ("".join(levels), " | ".join(alts[:rng.choice([3, 4, 5, 6])] + ([] if "NUM" in alts[:3] else ["NUM"])))
 
 
+def grammar_defects(rng):
+    """several diagnostics of the grammar verification at once (non-terminals without a production), and nothing the symbol
+    table verification - which runs first and alone - objects to: their order must not depend on the run"""
+    names = rng.sample(["aa", "bb", "cc", "dd", "ee", "ff", "gg", "hh", "expr", "stmt", "x_1"], rng.choice([2, 3, 4, 6]))
+    uses = names + ['"x"', '"y"'][:rng.choice([0, 1, 2])]
+    rng.shuffle(uses)
+    k = rng.choice([1, 2])
+    rules = ["start = %s;" % " ".join(uses[:len(uses) // k or 1])]
+    if k == 2:
+        rules.append("other = %s;" % " ".join(uses[len(uses) // 2:] or ['"z"']))
+        rules[0] = rules[0][:-1] + " other;"
+    return "grammar g;\n" + "\n".join(rules) + "\n"
+
+
 MULTIWAY = '''grammar g;
 @left "+";
 @left "z";
@@ -131,6 +145,8 @@ def run(ctx):
     texts = [MANY, DIAG, CONFLICT, LALRCONF, LALRSYN, BADPATS, MULTIWAY]
     multi = [MULTIWAY] + [multiway_conflict(rng) for _ in range(24 if quick else 300)]
     texts += multi[1:]
+    gdef = [grammar_defects(rng) for _ in range(10 if quick else 120)]
+    texts += gdef
     texts += [bad_patterns(rng) for _ in range(8 if quick else 100)]
     texts += [synth_conflict(rng) for _ in range(12 if quick else 150)]
     texts += [c03.gen_defs(rng) for _ in range(40 if quick else 600)]
@@ -143,6 +159,8 @@ def run(ctx):
     def reps(t):
         if t in multi:
             return 40
+        if t in gdef:
+            return 12
         return 60 if ("{3,1}" in t or "[z-a]" in t or "{5,2}" in t or "[9-0]" in t or "{2,1}" in t or "[b-a]" in t or "{9,8}" in t) else nin
     res = ctx.run_impl_par("det", ["%s %d" % (hx(t.encode()), reps(t)) for t in texts], nproc=8, timeout=1500, isolate=True)
     stats = {"specifications": len(texts), "in_process_runs": len(texts) * nin, "process_runs": 0, "generated": 0, "rejected": 0, "skipped_known_crash": 0}
